@@ -198,7 +198,30 @@ def check_container(arg):
     texts = []
     fails = []
     try:
-        acl = cisco_acl.Acl("\n".join([head] + [" " + l for l in lines]), **kw)
+        if op.startswith("objects-"):
+            # the container is built first, entry objects made without its version are handed to it afterwards (items assignment / constructor argument)
+            objs = [cisco_acl.Remark(l, platform=platform) if l.startswith("remark") else cisco_acl.Ace(l, platform=platform) for l in lines]
+            kw2 = {k: v for k, v in kw.items() if k != "group_by"}
+            if op == "objects-acegroup-assigned":
+                box = cisco_acl.AceGroup(**kw2)
+                box.items = objs
+            elif op == "objects-acegroup-argument":
+                box = cisco_acl.AceGroup(items=objs, **kw2)
+            elif op == "objects-acl-assigned":
+                box = cisco_acl.Acl(name="A", **kw2)
+                box.items = objs
+            elif op == "objects-acl-holds-acegroup":
+                box = cisco_acl.Acl(name="A", **kw2)
+                box.items = [cisco_acl.AceGroup(items=objs, platform=platform)]
+            elif op == "objects-version-assigned-later":
+                box = cisco_acl.Acl("\n".join([head] + [" " + l for l in lines]), platform=platform)
+                box.version = version
+            else:
+                box = cisco_acl.Acl(name="A", items=objs, **kw2)
+            texts = [l for l in box.line.splitlines() if not l.startswith("ip access-list")]
+            acl = None
+        else:
+            acl = cisco_acl.Acl("\n".join([head] + [" " + l for l in lines]), **kw)
         if op == "render":
             texts = acl.line.splitlines()[1:]
         elif op == "platform-same":
@@ -305,7 +328,9 @@ def main(chk):
     t0 = time.time()
     ccases = [(p, v, g, op, sorted(expected_table(consts, p, v.split(".")[0].split("(")[0], "tcp")), sorted(expected_table(consts, p, v.split(".")[0].split("(")[0], "udp")))
               for p, v in (("ios", "15.2(02)SY"), ("ios", "16.09.06"), ("nxos", "9.3")) for g in (False, True)
-              for op in ("render", "platform-same", "entry-copy", "entry-port_nr-toggle", "group-copy", "ungroup_ports")]
+              for op in ("render", "platform-same", "entry-copy", "entry-port_nr-toggle", "group-copy", "ungroup_ports") + (
+                  ("objects-acegroup-assigned", "objects-acegroup-argument", "objects-acl-assigned", "objects-acl-argument", "objects-acl-holds-acegroup",
+                   "objects-version-assigned-later") if not g else ())]
     res = pmap(check_container, ccases)
     viol = 0
     for fails, _ in res:
